@@ -60,6 +60,7 @@ def native_plan(tier):
 # which harnesses can produce a failing input for a Verus obligation in a given container
 CEX_MAP = [
     (r'for Option<T>', ['laws_option_u8', 'bounded_option_u8']),
+    (r'for Reverse<T>', ['laws_reverse_u8', 'swaps_reverse_u8', 'bounded_reverse_u8', 'laws_reverse_option_u8', 'swaps_reverse_p2']),
     (r'for Dual<T>', ['laws_dual_u8', 'swaps_dual_u8', 'bounded_dual_u8', 'swaps_dual_option_p2']),
     (r'for OrdLattice<T>', ['laws_ordlattice_u8', 'laws_ordlattice_pair']),
     (r'for ConstPropagation<T>', ['laws_constprop_u8', 'bounded_constprop_u8']),
